@@ -28,6 +28,16 @@ def clean_repo():
 
 
 def main():
+    # checks run on a mutated tree must not leave their evidence behind: evidence/ is saved
+    # here and put back at the end (evidence that is committed comes from the unchanged tree)
+    import shutil, atexit
+    ev, bak = os.path.join(ROOT, "evidence"), os.path.join(ROOT, ".build", "evidence_backup_%d" % os.getpid())
+    shutil.copytree(ev, bak)
+    def _restore():
+        shutil.rmtree(ev, ignore_errors=True)
+        shutil.copytree(bak, ev)
+        shutil.rmtree(bak, ignore_errors=True)
+    atexit.register(_restore)
     args = sys.argv[1:]
     only = args[args.index("--only") + 1] if "--only" in args else ""
     tier = args[args.index("--tier") + 1] if "--tier" in args else "quick"
